@@ -20,6 +20,12 @@ tie    : harness/c11.cpp drives the real routines and the public API on the same
               landmark subset checked for affine span, all pairwise distances reproduced
               (extracted decision procedure), landmark rows = MDS of the subset modulo sign;
               ratio = 1 against MDS / Isomap modulo sign.
+           TM / IM  (wave 2) streams T / I on the REAL embed() bodies of the two landmark method classes:
+              function-like macros around their routine calls record what embed() hands over (harness mode M)
+           ER (wave 2) Landmark MDS with eigen_method = Randomized on rank-d Euclidean data, unit scale
+           every data-carrying stream is run a second time on a copy of its data multiplied by 2^sc,
+           sc in -40..40, results multiplied back exactly: tolerances are relative to the data scale and an
+           absolute threshold anywhere in the landmark code gives a concrete (scaled) replay.
 search : when a proof or the correspondence breaks, the same generators at a larger budget with
          the spec decision procedures only.
 """
@@ -46,7 +52,13 @@ TRUSTED = [
     "(1e-9 relative) elsewhere; static_cast<IndexType>(N*ratio) and 3.0/N are modelled bit-exactly with Coq "
     "primitive floats (vm_compute inside coqc)",
     "extraction (ExtrOcamlBasic only) + OCaml 4.13.1 + coq/extract/c11_driver.ml (parsing/printing)",
-    "harness/c11.cpp; g++ ASan/UBSan/_GLIBCXX_ASSERTIONS as crash observer; Python float/Fraction conversions",
+    "harness/c11.cpp (mode M: function-like macros around select_landmarks_random / compute_distance_matrix / "
+    "compute_shortest_distances_matrix / eigendecomposition_via / triangulate inside methods/landmark_*.hpp record the "
+    "operands of the real embed() bodies); g++ ASan/UBSan/_GLIBCXX_ASSERTIONS as crash observer; Python float/Fraction "
+    "conversions; power-of-two rescaling of inputs and outputs (math.ldexp, exact)",
+    "the outcome of triangulate's null-eigenvalue comparison is an input (`keep`) of the executable model, derived by the "
+    "check from the implementation's eigenvalues threshold-agnostically (clearly null <= 1e-13*L*max, clearly kept > 1e-9*max, "
+    "in between not judged); keep_rel (Landmark_Proof_Scale.v) specifies it in exact rationals, not bit-exactly",
     "Coq primitives listed by Print Assumptions for the two PrimFloat sweeps (PrimFloat.*, PrimInt63.*: "
     "stdlib-declared primitive operations, no user axioms)",
 ]
@@ -616,7 +628,10 @@ class Stats:
 
 
 def crash_why(res):
-    return "the implementation aborts / hangs (memory error, assertion, timeout): " + str(res["sanitizer"])[:500]
+    text = str(res["sanitizer"])
+    m = re.search(r"(ERROR: \w+Sanitizer:[^\n]*|runtime error:[^\n]*|[^\n]*Assertion[^\n]*|timeout|NOTRUN[^\n]*)", text)
+    return "the implementation aborts / hangs (memory error, assertion, timeout): " + (
+        m.group(1)[:400] if m else text[:500])
 
 
 def jsonable(c):
@@ -1713,7 +1728,11 @@ def run(ctx):
              "internal routines; integer metrics line / L1 lattice / asymmetric table; L a power of two), I (Landmark "
              "Isomap dense body, distinct integer weights), E (public API, Euclidean integer configurations of "
              "intrinsic dimension d = target_dimension in R^D, 3 seeds each), E1 (ratio = 1 against MDS / Isomap), E2 (intrinsic dimension below target_dimension), EI (Landmark Isomap method "
-             "class vs routine-level pipeline), V (validation decisions vs the PrimFloat model); "
+             "class vs routine-level pipeline), V (validation decisions vs the PrimFloat model), TM / IM (streams T / I on the "
+             "real embed() bodies, routine calls recorded by macros; ratio = L/N with N, L powers of two), ER (Landmark MDS, "
+             "eigen_method = Randomized, rank-d Euclidean data, unit scale); every case of R, T, TM, I, IM, E, E1, E2, EI is "
+             "evaluated twice: as generated and on a copy multiplied by 2^sc, sc uniform in {-40,-40,-36,-32,-28,-24,-16,-8,8,"
+             "16,24,28,32,36,40,40}; "
              "non-trivial = at least one non-landmark row (S: 3 <= count < N; E: spanning landmark subset, "
              "well-conditioned; E1: spectrum guard passed); distinct by hash of the case.  Counts are fixed by the "
              "tier, not by time.",
@@ -1725,7 +1744,11 @@ def run(ctx):
                      "ratio = 1 clause compared only when the d leading eigenvalues of the centred Gram matrix are "
                      "positive and simple (for Landmark Isomap also leading in magnitude): see ratio_one_*_partial",
                      "Euclidean clause checked for intrinsic dimension = target_dimension (selected eigenvalues "
-                     "non-zero: hypothesis lam c <> 0 of lmds_reproduces_euclidean)"],
+                     "non-zero: hypothesis lam c <> 0 of lmds_reproduces_euclidean) and, stream E2, strictly below it",
+                     "data scales 2^-40 .. 2^40 (no overflow / underflow of the squared-distance pipeline; Landmark "
+                     "Isomap's eigenvalues scale with the 4th power: 2^-160 .. 2^160 times unit-scale values)",
+                     "eigen_method Dense everywhere except stream ER (Randomized, unit scale; its absolute cut-off is "
+                     "known finding F36); Arpack not compiled in; Landmark Isomap's non-dense branch not modelled"],
         extra={"float_cases_checked_in_coq": st.hist.get("S_float_pairs", 0),
                "violations_by_stream": by_stream(ctx._violations),
                "mismatches_by_stream": by_stream(ctx._mismatches)})
